@@ -84,3 +84,7 @@ int pthread_cond_timedwait(uint64_t cv, uint64_t m, uint64_t ts) { return pthrea
 int64_t _ZNSt6chrono3_V212steady_clock3nowEv(void) { vp_clock_now += 1; return (int64_t)vp_clock_now; }
 int64_t _ZNSt6chrono3_V212system_clock3nowEv(void) { vp_clock_now += 1; return (int64_t)vp_clock_now; }
 void _ZSt20__throw_system_errori(int e) { VP_FAIL("std::__throw_system_error"); }
+
+/* model of yaclib::detail::Spinlock (harness/model_include): see the comment there */
+void vp_spin_lock(uint64_t w, uint32_t sz) { vp_sync_point(); VP_ASSUME(vp_ld(w, (int)sz) == 0); vp_st(w, (int)sz, 1); }
+void vp_spin_unlock(uint64_t w, uint32_t sz) { VP_ASSERT(vp_ld(w, (int)sz) == 1, "unlock of a spinlock that is not locked"); vp_st(w, (int)sz, 0); vp_sync_point(); }
